@@ -271,6 +271,11 @@ func c07RandomTargets(g *Gen, n int) {
 	}
 }
 
+type c07CfgUnp interface{ Unpack(*ucfg.Config) error }
+type c07Impl struct{ n int }
+
+func (i *c07Impl) Unpack(v interface{}) error { i.n++; return nil }
+
 // targets for Unpack: name, constructor of a fresh target
 var c07Targets = []struct {
 	name string
@@ -301,6 +306,33 @@ var c07Targets = []struct {
 	}},
 	{"iface fields with arrays and nil maps", func() interface{} {
 		return &struct{ A, S, L, I interface{} }{[1]int{}, map[string]c07T(nil), [2]interface{}{}, [1]c07T{}}
+	}},
+	// an inline interface{} field that holds a list by value; compiled expressions held by value
+	// where they cannot be addressed; fields whose TYPE is an interface with an Unpack method
+	{"inline iface holding a slice", func() interface{} {
+		return &struct {
+			M interface{} `config:",inline"`
+		}{M: []int{5}}
+	}},
+	{"inline iface holding an array", func() interface{} {
+		return &struct {
+			M interface{} `config:",inline"`
+		}{M: [2]int{}}
+	}},
+	{"map with regexp value", func() interface{} { return map[string]interface{}{"r": *regexp.MustCompile("x")} }},
+	{"struct by value with regexp value", func() interface{} { return struct{ R regexp.Regexp }{} }},
+	{"map with array of regexp values", func() interface{} { return map[string]interface{}{"r": [1]regexp.Regexp{}} }},
+	{"*struct{Unpacker-interface fields}(nil)", func() interface{} {
+		return &struct {
+			S ucfg.Unpacker
+			I c07CfgUnp
+			E ucfg.StringUnpacker
+			A ucfg.Unpacker
+		}{}
+	}},
+	{"*struct{pointer to Unpacker interface}", func() interface{} { return &struct{ S *ucfg.Unpacker }{} }},
+	{"*struct{Unpacker-interface fields}(set)", func() interface{} {
+		return &struct{ A, S ucfg.Unpacker }{A: &c07Impl{}, S: &c07Impl{}}
 	}},
 	{"map nil", func() interface{} { return map[string]interface{}(nil) }},
 	{"*map nil", func() interface{} { var m map[string]interface{}; return &m }},
@@ -650,10 +682,11 @@ func genC07(g *Gen) {
 	}
 
 	// (6) every kind of unpack target, supported or not
-	cfgs := []map[string]interface{}{
-		{"a": uint64(1), "s": map[string]interface{}{"x": "y"}, "l": []interface{}{uint64(1), uint64(2)}, "e": "text", "i": map[string]interface{}{"k": 2}},
-		{},
-		{"a": map[string]interface{}{"a": 1}},
+	cfgs := []interface{}{
+		map[string]interface{}{"a": uint64(1), "s": map[string]interface{}{"x": "y"}, "l": []interface{}{uint64(1), uint64(2)}, "e": "text", "i": map[string]interface{}{"k": 2}},
+		map[string]interface{}{},
+		map[string]interface{}{"a": map[string]interface{}{"a": 1}},
+		[]interface{}{1, 2},
 	}
 	for ci, cm := range cfgs {
 		for _, t := range c07Targets {
